@@ -72,6 +72,13 @@ def Enum(w, s, scoped=True):
     return T(name, 'pool::' + name, {"k": "enum", "w": w, "s": s}, decls=[(name, text)])
 
 
+def EnumOver(base):
+    """Enumeration whose underlying type is plain char or bool: encoded exactly as that type (not as an 8-bit integer)."""
+    name = 'E' + base
+    text = 'enum class %s : %s { %s_Zero = 0 };' % (name, base, name)
+    return T(name, 'pool::' + name, {"k": base}, decls=[(name, text)])
+
+
 def ErrEnum(w, s):
     """Enumeration usable as Result's ErrorEnum (needs a None enumerator)."""
     name = 'Err%s%d' % ('i' if s else 'u', 8 * w)
